@@ -142,19 +142,20 @@ func parseProperType(data []byte, v reflect.Value) bool {
 		}
 		v.SetBool(bol)
 	case reflect.Int, reflect.Int8, reflect.Int16, reflect.Int32, reflect.Int64:
-		d, err := strconv.ParseInt(s, 10, 64)
+		// parsed with the width of the destination: a number that does not fit is refused, not truncated
+		d, err := strconv.ParseInt(s, 10, v.Type().Bits())
 		if err != nil {
 			return false
 		}
 		v.SetInt(d)
 	case reflect.Uint, reflect.Uint8, reflect.Uint16, reflect.Uint32, reflect.Uint64:
-		d, err := strconv.ParseUint(s, 10, 64)
+		d, err := strconv.ParseUint(s, 10, v.Type().Bits())
 		if err != nil {
 			return false
 		}
 		v.SetUint(d)
 	case reflect.Float32, reflect.Float64:
-		f, err := strconv.ParseFloat(s, 64)
+		f, err := strconv.ParseFloat(s, v.Type().Bits())
 		if err != nil {
 			return false
 		}
